@@ -292,3 +292,86 @@ theorem foldl_pair_add_nat (L : List Nat) (f g : Nat → Nat) (t : Nat × Nat) :
 end rat
 
 end Pyunicorn.Cross
+
+/-! ### positional loops of the `_sparse` twins -/
+namespace Pyunicorn.Cross
+
+theorem foldl_count2 (l : List Nat) (c d : Nat → Bool) (acc : Nat × Nat) :
+    l.foldl (fun acc k => if c k then (if d k then acc.1 + 1 else acc.1, acc.2 + 1) else acc) acc
+      = (acc.1 + (l.map fun k => b2n (c k && d k)).sum, acc.2 + (l.map fun k => b2n (c k)).sum) := by
+  induction l generalizing acc with
+  | nil => simp
+  | cons k t ih =>
+    rw [List.foldl_cons, ih]
+    simp only [List.map_cons, List.sum_cons, b2n]
+    cases c k <;> cases d k <;> simp <;> (try constructor) <;> omega
+
+theorem map_getD_range (L : List Nat) : (List.range L.length).map (fun i => L.getD i 0) = L := by
+  apply List.ext_getElem
+  · simp
+  · intro i h1 h2
+    simp at h1
+    simp [List.getD_eq_getElem?_getD, h1]
+
+theorem getD_append_left (L1 L2 : List Nat) (i : Nat) (h : i < L1.length) :
+    (L1 ++ L2).getD i 0 = L1.getD i 0 := by
+  simp [List.getD_eq_getElem?_getD, List.getElem?_append_left h]
+
+theorem getD_append_right (L1 L2 : List Nat) (j : Nat) :
+    (L1 ++ L2).getD (L1.length + j) 0 = L2.getD j 0 := by
+  simp [List.getD_eq_getElem?_getD, List.getElem?_append_right]
+
+/-- `Σ_{jj < |L|} Σ_{kk < jj} h L[jj] L[kk]` -/
+def posPairSum (h : Nat → Nat → Nat) (L : List Nat) : Nat :=
+  ((List.range L.length).map fun jj =>
+    ((List.range jj).map fun kk => h (L.getD jj 0) (L.getD kk 0)).sum).sum
+
+theorem posPairSum_eq (h : Nat → Nat → Nat) (L : List Nat) : posPairSum h L = pairSum h L := by
+  induction L with
+  | nil => simp [posPairSum, pairSum]
+  | cons x t ih =>
+    rw [pairSum, ← ih]
+    simp only [posPairSum, List.length_cons, List.range_succ_eq_map, List.map_cons, List.sum_cons,
+      List.map_map, Function.comp_def, List.range_zero, List.map_nil, List.sum_nil,
+      List.getD_cons_succ, List.getD_cons_zero, Nat.zero_add]
+    rw [List.sum_map_add]
+    congr 1
+    have := map_getD_range t
+    conv_rhs => rw [← this]
+    simp [List.map_map, Function.comp_def]
+
+theorem sum_range'_shift (F : Nat → Nat) (s n : Nat) :
+    ((List.range' s n).map F).sum = ((List.range n).map fun j => F (s + j)).sum := by
+  rw [List.range'_eq_map_range, List.map_map]
+  rfl
+
+end Pyunicorn.Cross
+
+namespace Pyunicorn.Cross
+
+theorem foldl_congr_mem {β : Type} (l : List Nat) (f g : β → Nat → β) (a : β)
+    (h : ∀ acc, ∀ x ∈ l, f acc x = g acc x) : l.foldl f a = l.foldl g a := by
+  induction l generalizing a with
+  | nil => rfl
+  | cons x t ih =>
+    simp only [List.foldl_cons]
+    rw [h a x (by simp)]
+    exact ih _ (fun acc y hy => h acc y (by simp [hy]))
+
+/-- one row `i` of the positional loops of `cross_transitivity_sparse` -/
+theorem sparse_row (A : Adj) (L1 L2 : List Nat) (i : Nat) (hi : i < L1.length) (acc : Nat × Nat) :
+    (List.range' L1.length L2.length).foldl (fun acc j =>
+        (List.range' L1.length (j - L1.length)).foldl (fun acc k =>
+          if catAdj A L1 L2 i j && catAdj A L1 L2 i k then
+            (if catAdj A L1 L2 j k then acc.1 + 1 else acc.1, acc.2 + 1)
+          else acc) acc) acc
+      = (acc.1 + pairSum (fun y x =>
+            b2n ((A (L1.getD i 0) y && A (L1.getD i 0) x) && A y x)) L2,
+         acc.2 + pairSum (fun y x => b2n (A (L1.getD i 0) y && A (L1.getD i 0) x)) L2) := by
+  simp only [foldl_count2]
+  rw [foldl_pair_add_nat]
+  rw [← posPairSum_eq, ← posPairSum_eq]
+  simp only [posPairSum, sum_range'_shift, Nat.add_sub_cancel_left, catAdj, getD_append_right,
+    getD_append_left L1 L2 i hi]
+
+end Pyunicorn.Cross
